@@ -72,6 +72,20 @@ theorem protected_not_reused : ∀ es s, sys.run es = some s →
   · exact hI.p0_life u n hm
   · exact hI.p1_life u n hm
 
+/-- The client side of the hazard-pointer contract (what C14's `Hp` model assumes of its
+    user): a retired node is unreachable from the shared cells the validating re-reads look
+    at (`head`, `tail`), and so is a free or privately owned one — only nodes in the queue
+    are ever published there.  (A node is retired once per incarnation, by the popper whose
+    head CAS unlinked it, and is handed out again only after `reclaim`: `take` needs `free`.) -/
+theorem retired_unreachable : ∀ es s, sys.run es = some s →
+    s.life s.head = .inq ∧ s.life s.tail = .inq := by
+  intro es s h
+  have hI := inv_of_run h
+  have hlt := hI.hd_lt
+  refine ⟨?_, ?_⟩
+  · rw [hI.head_eq]; exact hI.q_life s.hd (by omega) hlt
+  · rw [hI.tail_eq]; exact hI.q_life (s.len - 1) (by omega) (by omega)
+
 /-! ## 2. a successful pop returns the oldest value -/
 
 /-- **pop_value.**  A successful head CAS by thread `t` happens in a state where the queue
